@@ -61,7 +61,7 @@ def _field_writers(cls_node: ast.ClassDef) -> Dict[str, List[str]]:
     return out
 
 
-def _mutable_returns(fn: ast.AST, repo_classes: Set[str]) -> List[str]:
+def _mutable_returns(fn: ast.AST, repo_classes: Set[str], expr: Optional[ast.AST] = None) -> List[str]:
     """descriptions of mutable objects that can reach a return statement (directly or through a local name)"""
     defs: Dict[str, List[ast.AST]] = {}
     for n in ast.walk(fn):
@@ -99,6 +99,9 @@ def _mutable_returns(fn: ast.AST, repo_classes: Set[str]) -> List[str]:
                     return f"a tuple holding {r}"
         return None
     repo_funcs: Set[str] = set()
+    if expr is not None:
+        r = mutable(expr)
+        return [r] if r else []
     out = []
     for n in ast.walk(fn):
         if isinstance(n, ast.Return) and n.value is not None:
@@ -229,8 +232,15 @@ class U:
     def fine(self, method, n_steps):
         key = (method, n_steps)
         if key not in self._c:
-            self._c[key] = make(method, n_steps)
+            self._c[key] = int(make(method, n_steps))
         return self._c[key]
+    def shares(self, k):
+        import numpy as np
+        if k in self._d:
+            return self._d[k]
+        a = np.zeros((k, k))
+        self._d[k] = (1.0, a)
+        return self._d[k]
 '''
 
 
@@ -286,6 +296,12 @@ def cache_key_findings(tree: ast.AST):
                         out.append((fn, prefix + fn.name, f"results are remembered in {cont} under a key made of {sorted(key_params)}, but the remembered value also depends on "
                                                           f"{missing}: a later call that differs only in {missing} receives the value computed for the first one"))
                         break
+                    if returned:
+                        mut = _mutable_returns(fn, set(), n.value)
+                        if mut:
+                            out.append((fn, prefix + fn.name, f"results are remembered in {cont} and handed out as they are: the remembered value is {mut[0]}, so a caller that "
+                                                              f"modifies what it received (an in-place scaling, an append) changes what every later caller gets"))
+                            break
             visit(fn.body, prefix + fn.name + ".")
     visit(tree.body, "")
     return out
@@ -293,7 +309,7 @@ def cache_key_findings(tree: ast.AST):
 
 def check_cache_keys(idx: Index, rep, relpaths: Iterable[str], rule: str = "K1.cache-key"):
     ex = cache_key_findings(ast.parse(_CACHE_EXAMPLE))
-    if [q for _, q, _ in ex] != ["U.build"]:
+    if [q for _, q, _ in ex] != ["U.build", "U.shares"]:
         raise AnalysisError(f"cache-key rule self-check failed: built-in example reports {[q for _, q, _ in ex]}")
     for rel in relpaths:
         try:
